@@ -60,13 +60,18 @@ theorem commitAt_len20 (H : HashFn) (w : World) (hn : Named H w) (id : Bytes) (h
     | none => exact absurd hget (get_none H w id _ ha)
     | some content => rw [← hn id content ha]; exact H.len20 _
 
-/-- in a connected repository, for an identity and a message in C12's domain, the commit object `commit` makes reads back
-    with the root tree of the staged entries and with a stored commit (the branch's) as its only parent -/
-theorem commit_lines (H : HashFn) (w : World) (l : Loaded) (snap : Option (List Entry)) (msg : Bytes) (tz t : Int) (id data : Bytes)
+/-- in a connected repository, for an identity and a message in C12's domain, the commit object `commit` makes **reads back
+    as what was put in**: the root tree of the staged entries, the commit the branch file names as its only parent (none when the
+    branch has no file yet), the configured identity as author and committer at the clock's instant and offset, the message -/
+theorem commit_parses (H : HashFn) (w : World) (l : Loaded) (snap : Option (List Entry)) (msg : Bytes) (tz t : Int) (id data : Bytes)
     (hconn : Conn H w) (hcc : Cmds.commitCmd H (commitIn w l snap msg tz t) = .ok (id, data))
     (hdom : CommitDomain w msg tz t) :
-    ∀ c, Commit.parse data = some c →
-      c.tree = some (writeTree H l.idx).id ∧ ∀ p ∈ c.parents, (commitAt H w p).isSome = true := by
+    ∃ (parent : Option Bytes) (loc glob : Config.Sections),
+      aget w.heads l.ref = parent.map hashStr ∧ (∀ p, parent = some p → (commitAt H w p).isSome = true) ∧
+      Cmds.cfgOf w.cfgLocal = some loc ∧ Cmds.cfgOf w.cfgGlobal = some glob ∧
+      Commit.parse data = some ⟨some (writeTree H l.idx).id, parent.toList,
+        some ⟨Config.userField loc glob (asc "name"), Config.userField loc glob (asc "email"), t, tz⟩,
+        some ⟨Config.userField loc glob (asc "name"), Config.userField loc glob (asc "email"), t, tz⟩, msg⟩ := by
   obtain ⟨loc, glob, hloc, hglob, _, hdata, _, _, _, _⟩ := C02.commitCmd_ok H _ id data hcc
   obtain ⟨hsign, hau, hco, ls, hls, hmsg, hmsgl⟩ := hdom loc glob hloc hglob
   have hlines : ∀ parent : Option Bytes, (∀ p, parent = some p → p.length = 20) →
@@ -93,17 +98,14 @@ theorem commit_lines (H : HashFn) (w : World) (l : Loaded) (snap : Option (List 
   have hdata' : data = Commit.format (writeTree H l.idx).id (aget w.heads l.ref)
       ⟨Config.userField loc glob (asc "name"), Config.userField loc glob (asc "email"), t, tz⟩
       ⟨Config.userField loc glob (asc "name"), Config.userField loc glob (asc "email"), t, tz⟩ msg := hdata
-  intro c hc
   cases hb : aget w.heads l.ref with
   | none =>
     have hp := C12.commit_parse_format (writeTree H l.idx).id none _ _ ls hls (writeTree_id_len H l.idx)
       (fun p hp => by cases hp) hsign hsign (hlines none (fun p hp => by cases hp))
     rw [hb, hmsg] at hdata'
-    rw [hdata'] at hc
     simp only [Option.map_none] at hp
-    rw [hp] at hc
-    injection hc with hc; subst hc
-    exact ⟨rfl, fun p hp => by cases hp⟩
+    refine ⟨none, loc, glob, rfl, (fun p hp => by cases hp), hloc, hglob, ?_⟩
+    rw [hdata', hmsg]; exact hp
   | some raw =>
     obtain ⟨_, pid, hraw, hpc⟩ := hconn.branches l.ref raw hb
     have hlen := commitAt_len20 H w hconn.named pid hpc
@@ -111,12 +113,24 @@ theorem commit_lines (H : HashFn) (w : World) (l : Loaded) (snap : Option (List 
       (fun p hp => by injection hp with hp; rw [← hp]; exact hlen) hsign hsign
       (hlines (some pid) (fun p hp => by injection hp with hp; rw [← hp]; exact hlen))
     rw [hb, hmsg, hraw] at hdata'
-    rw [hdata'] at hc
     simp only [Option.map_some] at hp
-    rw [hp] at hc
-    injection hc with hc; subst hc
-    refine ⟨rfl, fun p hp => ?_⟩
-    simp at hp; subst hp; exact hpc
+    refine ⟨some pid, loc, glob, ?_, ?_, hloc, hglob, ?_⟩
+    · rw [hraw, Option.map_some]
+    · intro p hpp; have hq : pid = p := Option.some.inj hpp; rw [← hq]; exact hpc
+    · rw [hdata', hmsg]; exact hp
+
+theorem commit_lines (H : HashFn) (w : World) (l : Loaded) (snap : Option (List Entry)) (msg : Bytes) (tz t : Int) (id data : Bytes)
+    (hconn : Conn H w) (hcc : Cmds.commitCmd H (commitIn w l snap msg tz t) = .ok (id, data))
+    (hdom : CommitDomain w msg tz t) :
+    ∀ c, Commit.parse data = some c →
+      c.tree = some (writeTree H l.idx).id ∧ ∀ p ∈ c.parents, (commitAt H w p).isSome = true := by
+  obtain ⟨parent, loc, glob, _, hpar, _, _, hp⟩ := commit_parses H w l snap msg tz t id data hconn hcc hdom
+  intro c hc
+  rw [hp] at hc; injection hc with hc; subst hc
+  refine ⟨rfl, fun p hpm => ?_⟩
+  cases parent with
+  | none => cases hpm
+  | some q => simp at hpm; rw [hpm]; exact hpar q rfl
 
 /-- the input conditions of one step -/
 def StepIn (H : HashFn) (w : World) (i : Inv) : Prop :=
